@@ -3,7 +3,7 @@ import ast
 
 from ..model import AnalysisError, dotted, unparse
 from ..structfmt import linform
-from ..util import U, enum_paths, walk_no_nested
+from ..util import RAW, POS, FACTS, FACTS_I, U, enum_paths, walk_no_nested
 from ..paths import call_attr, call_name
 
 MUX = 'scales/mux/sink.py'
@@ -49,7 +49,7 @@ def r1(ctx):
   fresh = []
   reuse = []
   for ev, ex in enum_paths(ctx, get):
-    fs = [(U(e.node).replace(' ', ''), e.info) for e in ev if e.kind == 'cond']
+    fs = FACTS(ev)
     if ex[0] == 'raise':
       continue
     r = [e for e in ev if e.kind == 'ret'][-1].node
@@ -65,7 +65,7 @@ def r1(ctx):
           ok = ok and incs and i > incs[0]
       ok = ok and src == 'self._next'
       # guard: raise when _next (==|>=) max_tag + c
-      guard = [(c, t) for c, t in fs if c.startswith('self._next') and 'self._max_tag' in c]
+      guard = [(c, t) for c, t in RAW(ev) if c.startswith('self._next') and 'self._max_tag' in c]
       c_off = None
       if len(guard) == 1 and guard[0][1] is False:
         g = [e.node for e in ev if e.kind == 'cond' and U(e.node).replace(' ', '') == guard[0][0]][0]
@@ -147,7 +147,7 @@ def r2_r3(ctx):
       var = U(pops[0][1].node.targets[0])
       call = pops[0][1].node.value
       okpop = [U(a) for a in call.args] == [tag, 'None']
-      fs = [(U(e.node).replace(' ', ''), e.info) for e in ev[pops[0][0]:rel[0]] if e.kind == 'cond']
+      fs = FACTS(ev[pops[0][0]:rel[0]])
       ok = okpop and ((var + 'isnotNone', True) in fs or (var, True) in fs or (var + 'isNone', False) in fs)
       ok = ok and [U(a) for a in ev[rel[0]].node.args] == [tag]
     ctx.ob('C11.R2', rt, 'release is control-dependent on the tag having been registered', ok,
@@ -179,7 +179,7 @@ def r2_r3(ctx):
     rc = [e for e in ev if e.kind == 'call' and call_attr(e.node) == '_ReleaseTag']
     if not rc:
       continue
-    fs = [(U(e.node).replace(' ', ''), e.info) for e in ev if e.kind == 'cond']
+    fs = FACTS(ev)
     r = [e for e in ev if e.kind == 'ret']
     ok = ('timeout_event.Get()', True) in fs and bool(r) and U(r[-1].node.value) == 'True'
     # the released tag is the one popped from the message properties
@@ -192,9 +192,9 @@ def r2_r3(ctx):
   loops = [n for n in sl.node.body if isinstance(n, ast.While)]
   if loops:
     for ev, ex in enum_paths(ctx, sl, body=loops[0].body):
-      fs = [(U(e.node).replace(' ', ''), e.info) for e in ev if e.kind == 'cond']
+      fs = FACTS(ev)
       wr = [e for e in ev if e.kind == 'call' and U(e.node.func).endswith('_socket.write')]
-      if any(c.startswith('self._HandleTimeout(') and t for c, t in fs):
+      if any(c.startswith('self._HandleTimeout(') and t for c, t in POS(fs)):
         ctx.ob('C11.R3', sl, 'a message whose tag was released is not written', not wr, 'write on a path where _HandleTimeout returned True', why3)
   # tag map writers
   bad = []
@@ -224,7 +224,7 @@ def r4(ctx):
     if not put:
       continue
     n += 1
-    fs = [(U(e.node).replace(' ', ''), e.info) for e in ev if e.kind == 'cond']
+    fs = FACTS(ev)
     bh = [(i, e.node) for i, e in enumerate(ev) if e.kind == 'call' and call_attr(e.node) == '_BuildHeader']
     if len(bh) != 1:
       ctx.ob('C11.R4', f, 'one header per enqueued frame', False, '%d headers built on an enqueue path' % len(bh), why)
